@@ -12,4 +12,21 @@ CHECKS = {
              'Exploration, not proof: arithmetic over unbounded numbers cannot be exhausted.',
         note='Trusts CPython arithmetic on the 1/4 float grid and the virtual event loop; the '
              'oracle is an independent Fraction model.'),
+    'C19': dict(
+        level='exploration', design_ref='DESIGN.md 4/C19',
+        technique=PBT + '; exact Fraction oracle, round-trip relations, grammar of malformed strings; exhaustive integers 0..10^6 (thorough)',
+        text='Duration strings rendered from generated unit parts in both notations (case, whitespace, '
+             'decimal mark) are compared with exact unit arithmetic; timestr/timestr_approx round trips '
+             'on integers dense at unit boundaries and decimal fractions; malformed strings from a '
+             'grammar must raise ValueError. Thorough enumerates every integer up to 10^6.',
+        note='Pure functions, no event loop involved. Tolerance 1e-9 relative for float results.'),
+    'C13': dict(
+        level='exploration', design_ref='DESIGN.md 4/C13',
+        technique=PBT + '; metamorphic notation equivalence + round trip + independent integer membership model; exhaustive date/time range grids (thorough)',
+        text='One numeric interval is rendered in several generated notations; all must normalise to the '
+             'same sorted full-length list, survive as_list()/as_string() round trips and agree with an '
+             'integer membership model at endpoints and neighbours; malformed specifications must raise. '
+             'Thorough enumerates all 366^2 date ranges x 366 days and 1440^2 minute-grid time ranges.',
+        note='Renderers avoid the two ambiguities the documentation itself warns about; parsing relies on '
+             'CPython 3.12 datetime.fromisoformat for the ISO forms.'),
 }
